@@ -535,19 +535,26 @@ Proof.
   apply (tolerated_budget _ budget bufs rds 0 0); auto.
 Qed.
 
-(* one failing body read more than the budget inside one Read: the Read reports an error *)
-Lemma budget_exceeded_fails :
+(* one failing body read more than the budget inside one Read: the Read reports
+   an error (for every shape of the text that is shape_okb: by refinement) *)
+Lemma budget_exceeded_fails sh : shape_okb sh = true ->
   exists srv rds bufs sr outs,
     kind (base srv) = HonoursRange /\
     runs_le 2 0 rds = false /\ runs_le 3 0 rds = true /\ early_faults (List.length (data (base srv))) 0 rds = true /\
-    session_r {| range_add := false; hdr_shared := true; install_early := false; fail_closes := true |}
-      srv (repeat true 2 ++ [false]) rds [] bufs = Ok (Some (sr, outs)) /\
+    session_r sh srv (repeat true 2 ++ [false]) rds [] bufs = Ok (Some (sr, outs)) /\
     Exists (fun o => snd o = EFail) outs.
 Proof.
-  exists {| base := {| data := [1; 2; 3]%N; kind := HonoursRange; bare := false |}; ebody := [] |}.
-  exists [ {| rk := 0; rfail := true; reager := false |}; {| rk := 0; rfail := true; reager := false |};
-           {| rk := 0; rfail := true; reager := false |} ].
-  exists [3; 3; 3; 3]. eexists _, _.
+  intros Hsh.
+  set (srv := {| base := {| data := [1; 2; 3]%N; kind := HonoursRange; bare := false |}; ebody := [] |}).
+  set (rds := [ {| rk := 0; rfail := true; reager := false |}; {| rk := 0; rfail := true; reager := false |};
+                {| rk := 0; rfail := true; reager := false |} ]).
+  assert (Habs : exists s outs, session (base srv) (repeat true 2 ++ [false]) rds [] [3; 3; 3; 3] = Ok (Some (s, outs)) /\
+                   Exists (fun o => snd o = EFail) outs).
+  { eexists _, _. split; [vm_compute; reflexivity|]. apply Exists_cons_hd. reflexivity. }
+  destruct Habs as (s & outs & Hs & Hex).
+  destruct (session_sim sh srv Hsh _ _ _ _ _ Hs) as (rr & Hrr & Hsim).
+  destruct rr as [[sr outs_r]|]; simpl in Hsim; [|contradiction]. destruct Hsim as [-> _].
+  exists srv, rds, [3; 3; 3; 3], sr, outs.
   split; [reflexivity|]. split; [reflexivity|]. split; [reflexivity|]. split; [reflexivity|].
-  split; [vm_compute; reflexivity|]. apply Exists_cons_hd. reflexivity.
+  split; [exact Hrr | exact Hex].
 Qed.
